@@ -82,7 +82,7 @@ Proof.
 Qed.
 
 Lemma sim_create fs qs tbl m fs' :
-  Inv fs -> wf_op (Create m) -> R fs qs tbl -> create fs m = Some fs' ->
+  Inv fs -> wf_op fs (Create m) -> R fs qs tbl -> create fs m = Some fs' ->
   exists o tbl', QP.op_clean o /\ R fs' (fst (Q.step qs o)) tbl'.
 Proof.
   intros I W Rr E. destruct (create_facts _ _ _ E) as (Hl & Hn & Ht).
@@ -242,7 +242,7 @@ Proof.
 Qed.
 
 Theorem sim_step fs qs tbl o :
-  Inv fs -> Strict fs -> wf_op o -> R fs qs tbl -> QP.QInv qs ->
+  Inv fs -> Strict fs -> wf_op fs o -> R fs qs tbl -> QP.QInv qs ->
   exists qops tbl', Forall QP.op_clean qops /\ R (step fs o) (Q.run qs qops) tbl' /\ QP.QInv (Q.run qs qops).
 Proof.
   intros I S W Rr QI. unfold step. destruct o as [m|who id secret|dts|gw gP]; simpl.
@@ -265,12 +265,12 @@ Lemma q_run_app : forall a b s, Q.run s (a ++ b) = Q.run (Q.run s a) b.
 Proof. induction a as [|o a IH]; simpl; intros b s; [reflexivity|apply IH]. Qed.
 
 Lemma sim_run : forall ops fs qs tbl,
-  Inv fs -> Strict fs -> Forall wf_op ops -> R fs qs tbl -> QP.QInv qs ->
+  Inv fs -> Strict fs -> wf_run fs ops -> R fs qs tbl -> QP.QInv qs ->
   exists qops tbl', Forall QP.op_clean qops /\ R (run fs ops) (Q.run qs qops) tbl'.
 Proof.
   unfold run. induction ops as [|o ops IH]; simpl; intros fs qs tbl I S W Rr QI.
   - exists [], tbl. split; [constructor|exact Rr].
-  - inversion W as [|? ? Wo Wops]; subst.
+  - destruct W as [Wo Wops]. fold (step fs o) in Wops.
     destruct (sim_step fs qs tbl o I S Wo Rr QI) as (q1 & tbl1 & Hc1 & Rr1 & QI1).
     destruct (step_inv fs o I S Wo) as (I1 & S1 & _).
     destruct (IH _ _ _ I1 S1 Wops Rr1 QI1) as (q2 & tbl2 & Hc2 & Rr2).
@@ -281,7 +281,7 @@ Qed.
     and receivers that are not module accounts) is mirrored by a history of the queue model
     all of whose block operations are [BeginBlock []]: no refund of a begin blocker fails. *)
 Theorem htlc_link_simulation P b t0 ops :
-  params_ok P -> escrow_empty b -> Forall wf_op ops ->
+  params_ok P -> escrow_empty b -> wf_run (init P b t0) ops ->
   exists qops tbl, Forall QP.op_clean qops /\ R (reachable P b t0 ops) (Q.run (Q.init 1) qops) tbl.
 Proof.
   intros HP HE W. destruct (init_inv P b t0 HP HE) as [I S].
